@@ -874,6 +874,24 @@ impl SvgElement {
                 self.name
             )));
         }
+        // The same goes for per-axis positions which are not this element's own
+        // geometry (e.g. `cx` or `x2` on a rect): they are resolved into it - and
+        // removed - when the element is positioned, and until then say where it will be.
+        let own: &[&str] = match self.name.as_str() {
+            "box" | "rect" | "image" | "svg" | "foreignObject" | "use" | "point" | "text" => &["x", "y"],
+            "circle" | "ellipse" => &["cx", "cy"],
+            "line" => &["x1", "y1", "x2", "y2"],
+            _ => &["x", "y", "cx", "cy", "x1", "y1", "x2", "y2"],
+        };
+        if let Some(attr) = ["x", "y", "cx", "cy", "x1", "y1", "x2", "y2"]
+            .iter()
+            .find(|a| !own.contains(a) && self.has_attr(a))
+        {
+            return Err(SvgdxError::MissingBoundingBox(format!(
+                "'{attr}' position of <{}> not resolved yet",
+                self.name
+            )));
+        }
         Ok(match self.name.as_str() {
             "point" | "text" => {
                 let x = self.attrs.get("x").unwrap_or(&zstr);
